@@ -336,3 +336,72 @@ pub fn generate(ctx: &mut Ctx) {
         ctx.case("look", &format!("look {} {}", vx::h(&text), e.join(" ")));
     }
 }
+
+// ---------------------------------------------------------------------------------------------
+// table by execution (`hsverif dump scanread`): the second source of `Hs/Gen/ScannerRead.lean`.  gen/scanner_read.py
+// lists the uses of the reader in the TEXT of scanner.rs; when that text no longer has the shape it knows, the
+// sizes of the buffers handed to the reader are measured here: every Zinc text of the corpus (and the spelled /
+// mutated ones of a fixed seed) is decoded through a reader that records the length of each buffer it is given.
+// ---------------------------------------------------------------------------------------------
+struct SizeRecorder<'a> {
+    data: &'a [u8],
+    pos: usize,
+    sizes: std::rc::Rc<std::cell::RefCell<std::collections::BTreeMap<usize, u64>>>,
+}
+impl<'a> std::io::Read for SizeRecorder<'a> {
+    fn read(&mut self, buf: &mut [u8]) -> std::io::Result<usize> {
+        *self.sizes.borrow_mut().entry(buf.len()).or_insert(0) += 1;
+        let n = buf.len().min(self.data.len() - self.pos);
+        buf[..n].copy_from_slice(&self.data[self.pos..self.pos + n]);
+        self.pos += n;
+        Ok(n)
+    }
+}
+
+pub fn dump_tables() {
+    let sizes = std::rc::Rc::new(std::cell::RefCell::new(std::collections::BTreeMap::new()));
+    let mut texts: Vec<Vec<u8>> = vec![
+        b"ver:\"3.0\" a:1\nb,c dis:\"x\"\n1,\"s\"\n2020-01-01T00:00:00Z,[1,2,{a:<<\nver:\"3.0\"\nx\n1\n>>}]\n\n".to_vec(),
+        b"[1e10kW, -3.5, 2021-03-04, 12:30:00.5, C(1,2), Bin(\"x\"), `u`, ^s, @r \"d\", NA, M, R, N, T, F, INF, NaN]".to_vec(),
+        b"{a:1 b c:\"\\u00e9\"}".to_vec(),
+        b"".to_vec(),
+        b"\xff\xfe garbage".to_vec(),
+    ];
+    let mut rng = crate::rng::Rng::new(11);
+    for _ in 0..200 {
+        let v = gen::value(&mut rng, &Cfg::wf(3));
+        if let Ok(t) = to_zinc_string(&v) {
+            let mut b = t.into_bytes();
+            texts.push(b.clone());
+            if !b.is_empty() {
+                let k = rng.below(b.len() as u64) as usize;
+                b.truncate(k);
+                texts.push(b);
+            }
+        }
+    }
+    let mut docs = 0u64;
+    for t in &texts {
+        let mut rd = SizeRecorder { data: t, pos: 0, sizes: sizes.clone() };
+        let _ = std::panic::catch_unwind(std::panic::AssertUnwindSafe(|| {
+            if let Ok(mut p) = Parser::make(&mut rd) {
+                let _ = p.parse_value();
+            }
+        }));
+        let mut rd = SizeRecorder { data: t, pos: 0, sizes: sizes.clone() };
+        let _ = std::panic::catch_unwind(std::panic::AssertUnwindSafe(|| {
+            if let Ok(mut p) = Parser::make(&mut rd) {
+                if let Ok(it) = parse_grid_iterator(&mut p) {
+                    for _ in it.take(10000) {}
+                }
+            }
+        }));
+        docs += 1;
+    }
+    let m = sizes.borrow();
+    println!(
+        "{{\"docs\":{},\"sizes\":[{}]}}",
+        docs,
+        m.iter().map(|(k, v)| format!("[{k},{v}]")).collect::<Vec<_>>().join(",")
+    );
+}
